@@ -325,7 +325,7 @@ def cases(rng, tier):
     yield dict(base, kind="scalar", filter=dict(n=[2, 3], bad=None, zd=0.0, kind="filter"), sub=11)
     yield dict(base, kind="lightness", aux="self", density=1.0, sub=12)
     yield dict(base, kind="lightness", mesh=dict(base["mesh"], n=[1, 3]), density=1.0, sub=13)
-    n = 330 if tier == "quick" else 4500
+    n = 2200 if tier == "quick" else 20000
     for _ in range(n):
         yield gen_case(rng, tier)
 
@@ -379,7 +379,7 @@ def build_field(case, rng):
         p1 = list(g["p1"][:pos]) + [lo3] + list(g["p1"][pos:])
         p2 = list(g["p2"][:pos]) + [hi3] + list(g["p2"][pos:])
         n3 = list(n[:pos]) + [s["n3"]] + list(n[pos:])
-        mesh3 = df.Mesh(p1=p1, p2=p2, n=n3, dims=dims3, units=units3)
+        mesh3 = df.Mesh(region=df.Region(p1=p1, p2=p2, dims=dims3, units=units3), n=n3)
         arr = gen_values(rng, case["regime"], (*n3, nv), pyth)
         mask = np.array([rng.random() < case["density"] for _ in range(int(np.prod(n3)))], dtype=bool).reshape(n3)
         f3 = df.Field(mesh3, nvdim=nv, value=arr, valid=mask, unit=rng.choice([None, "A/m"]), **fkw)
@@ -387,7 +387,7 @@ def build_field(case, rng):
             return f3.sel(s["dim"])
         k = s["k"] % s["n3"]
         return f3.sel(**{s["dim"]: lo3 + 0.5 * k + 0.25})
-    mesh = df.Mesh(p1=g["p1"], p2=g["p2"], n=n, **kw)
+    mesh = df.Mesh(region=df.Region(p1=g["p1"], p2=g["p2"], **kw), n=n)
     arr = gen_values(rng, case["regime"], (*n, nv), pyth)
     mask = np.array([rng.random() < case["density"] for _ in range(n[0] * n[1])], dtype=bool).reshape(n)
     return df.Field(mesh, nvdim=nv, value=arr, valid=mask, unit=rng.choice([None, "A/m"]), **fkw)
@@ -888,6 +888,7 @@ def run_impl(case):
                 fail(f"labels announce multiplier {float(um)!r}, the call asked for {case['mult']}")
             else:
                 obs["used_mult"] = Q(um)
+            if obs.get("used_mult") and k is None:
                 oracle(case, f, flt if flt is None or not case["filter"].get("bad") else None, aux if (aux is not None and aux is not f and not (case.get("aux") or {}).get("bad")) else None,
                        res, um, fail)
     finally:
@@ -964,7 +965,8 @@ def model_requests(case, obs):
     req = dict(op="plot", kind=case["kind"], field=obs["field"], mult=(None if case.get("mult") is None else Q(dec(mult_value(case["mult"])))),
                filter=obs.get("filter"), aux=obs.get("aux"), vdims_arg=case.get("vdims_arg"), use_color=bool(case.get("use_color", True)),
                clim=(None if case.get("clim") is None else [Q(Fraction(x)) for x in case["clim"]]))
-    return [dict(req, pick=k) for k in range(3)]
+    amb = case["nvdim"] == 3 and case["kind"] in ("vector", "default", "lightness")
+    return [dict(req, pick=k) for k in range(3 if amb else 1)]
 
 
 def img_eq(name, im, mj, dis):
